@@ -168,7 +168,10 @@ def gen_env(g, prof):
     env["cpu_count"] = g.rint(1, 4)
     env["p_stall"] = g.weighted([(0.0, 3), (0.002, 2), (0.01, 1)]) if prof.get("stalls", True) else 0.0
     env["stall_max"] = g.pick([30.0, 600.0, 7200.0])
+    env["p_preempt"] = g.weighted([(0.0, 4), (0.03, 2), (0.1, 2), (0.3, 1)])
+    env["preempt_max"] = g.pick([0.05, 1.0, 10.0])
     env["p_configuring"] = g.pick([0.0, 0.2, 0.6])
+    env["p_exotic_state"] = g.weighted([(0.0, 3), (0.1, 1), (0.5, 1)])
     env["first_job_id"] = g.pick([8100000, 17, 99999990])
     env["op_lat"] = g.weighted([(0.0, 6), (0.02, 1), (0.5, 1), (4.0, 1)])
     return env
